@@ -1,29 +1,57 @@
 (* C12 — printed RREL expressions re-parse to equivalent expressions. *)
 From TxV Require Import Core.Base Model.Rx Model.RrelSyntaxLib Gen.SrcRrelSyntax Model.RrelSyntax Model.RrelSyntaxText.
-From TxV Require Import Proofs.RrelSyntaxProofs Proofs.RrelSyntaxPrintProofs Proofs.RrelSyntaxLexProofs Proofs.RrelSyntaxTextProofs.
+From TxV Require Import Model.PegSyntax Model.RrelSyntaxPeg.
+From TxV Require Import Proofs.RrelSyntaxProofs Proofs.RrelSyntaxPrintProofs Proofs.RrelSyntaxLexProofs Proofs.RrelSyntaxTextProofs
+  Proofs.RrelSyntaxParseProofs Proofs.RrelSyntaxPegProofs.
 
-(* The full statement, at the level of characters.
+(* The property in its stated form: for every text that PARSES as an RREL expression, str(expr)
+   parses back to the same expression - same structure, same flags - unless a fixed name of the
+   expression ends in a backslash (known finding trailing-backslash, C12_trailing_backslash_refuted).
+     parse_text  the terminals of the grammar (the regexes of the live parser, matched with the
+                 backtracking semantics of Model/Rx.v, after whitespace skipping) followed by the
+                 PEG-ordered parser (C12_live_peg_is_transcribed ties its PEG to the live parser);
      print_src   str(expr): every node printed by the __repr__ body of its class as translated
                  from textx/scoping/rrel.py (Gen/SrcRrelSyntax.v);
-     parse_text  the terminals of the grammar (the regexes translated from the source, matched
-                 with the backtracking semantics of Model/Rx.v, after whitespace skipping)
-                 followed by the PEG-ordered parser;
-     wf_expr     the tree is one the constructors build (dots only at the head of a path, a fixed
-                 name only on a non-consuming navigation);
-     lexable     what the grammar can express at all: names are ASCII identifiers, dots counts
-                 positive, flags over {m,p}, every fixed name can be written as a string_value
-                 (in one of the two quotes, see C12_expressible_fixed_names).
-   For every such tree of any depth and width, every flag combination and every classification
-   [u] of the non-ASCII code points, parsing the printed text gives back the tree itself: same
-   structure, same flags. *)
-Theorem C12_roundtrip : forall u e, wf_expr e -> lexable e = true -> parse_text u (print_src e) = Some e.
+     u           any classification of the non-ASCII code points (\w, \d). *)
+Theorem C12_parsed_roundtrip : forall u s e, parse_text u s = Some e -> no_trailing_bs e = true ->
+  parse_text u (print_src e) = Some e.
+Proof. exact parsed_roundtrip. Qed.
+Print Assumptions C12_parsed_roundtrip.
+
+(* every tree the parser returns is one the constructors build (dots only at the head of a path, a
+   fixed name only on a non-consuming navigation), its names are identifiers because rrel_id
+   matched them, its dots counts are positive, its flags are over {m,p} and its fixed names have
+   no unescaped quote of the kind string_value matched them in *)
+Theorem C12_parsed_trees : forall u s e, parse_text u s = Some e -> wf_expr e /\ parsed_ok u e = true.
+Proof. exact parse_text_sound. Qed.
+Print Assumptions C12_parsed_trees.
+
+(* ... and such a tree is expressible unless a fixed name ends in a backslash *)
+Theorem C12_parsed_expressible : forall u e, parsed_ok u e = true -> no_trailing_bs e = true -> lexable u e = true.
+Proof. exact parsed_lexable. Qed.
+Print Assumptions C12_parsed_expressible.
+
+(* The statement over trees (also those built through the constructors, not by parsing):
+     wf_expr     the tree is one the constructors build;
+     lexable u   what the grammar can express at all: names are identifiers (as rrel_id's regex
+                 matches them under u), dots counts positive, flags over {m,p}, every fixed name
+                 writable as a string_value (in one of the two quotes, C12_expressible_fixed_names).
+   For every such tree of any depth and width and every flag combination, parsing the printed text
+   gives back the tree itself. *)
+Theorem C12_roundtrip : forall u e, wf_expr e -> lexable u e = true -> parse_text u (print_src e) = Some e.
 Proof. exact parse_text_print. Qed.
 Print Assumptions C12_roundtrip.
 
+(* in particular for ASCII identifiers [A-Za-z_][A-Za-z0-9_]*, whatever the classification *)
+Theorem C12_roundtrip_ascii_names : forall u e, wf_expr e -> lexable ascii_only e = true ->
+  parse_text u (print_src e) = Some e.
+Proof. exact parse_text_print_ascii. Qed.
+Print Assumptions C12_roundtrip_ascii_names.
+
 (* hence any evaluation of the re-parsed expression equals the evaluation of the original *)
-Theorem C12_same_evaluation : forall (A : Type) (eval : expr -> A) u e, wf_expr e -> lexable e = true ->
-  option_map eval (parse_text u (print_src e)) = Some (eval e).
-Proof. exact same_evaluation. Qed.
+Theorem C12_same_evaluation : forall (A : Type) (eval : expr -> A) u s e, parse_text u s = Some e ->
+  no_trailing_bs e = true -> option_map eval (parse_text u (print_src e)) = Some (eval e).
+Proof. exact parsed_same_evaluation. Qed.
 Print Assumptions C12_same_evaluation.
 
 (* the three steps the round trip is composed of *)
@@ -35,11 +63,11 @@ Print Assumptions C12_repr_prints_tokens.
 (* 2. the grammar's terminals recover the tokens of any sequence in which every token is well
       formed and no identifier follows an identifier, no dots follow dots; the printer only
       emits such sequences *)
-Theorem C12_lexer_recovers_tokens : forall u ts, toks_ok ts = true -> lex_text u (render ts) = Some ts.
+Theorem C12_lexer_recovers_tokens : forall u ts, toks_ok u ts = true -> lex_text u (render ts) = Some ts.
 Proof. exact lex_text_render. Qed.
 Print Assumptions C12_lexer_recovers_tokens.
 
-Theorem C12_printer_never_glues : forall e, wf_expr e -> lexable e = true -> toks_ok (t_expr e) = true.
+Theorem C12_printer_never_glues : forall u e, wf_expr e -> lexable u e = true -> toks_ok u (t_expr e) = true.
 Proof. exact toks_ok_print. Qed.
 Print Assumptions C12_printer_never_glues.
 
@@ -59,9 +87,18 @@ Print Assumptions C12_expressible_fixed_names.
    ends in a backslash; no spelling of that name is independent of the text that follows, and the
    printed text 'a\'~x,'b'~y does not parse (known finding trailing-backslash) *)
 Theorem C12_trailing_backslash_refuted : exists s e,
-  parse_text ascii_only s = Some e /\ wf_expr e /\ lexable e = false /\ parse_text ascii_only (print_src e) = None.
+  parse_text ascii_only s = Some e /\ wf_expr e /\ no_trailing_bs e = false /\ parse_text ascii_only (print_src e) = None.
 Proof. exact trailing_backslash_exists. Qed.
 Print Assumptions C12_trailing_backslash_refuted.
+
+(* the PEG the token parser and the lexer were written from (Model/RrelSyntaxPeg.v: rrel_rules) is,
+   node for node, the parser model of the live ParserPython(rrel_standalone, reduce_tree=False),
+   dumped on every run by tools/pegdump.py: same rules, same sequences / ordered choices /
+   optionals / repetitions in the same order, same string terminals, same regex texts and flags,
+   no separators, no rule-level whitespace settings, no further nodes, same whitespace config *)
+Theorem C12_live_peg_is_transcribed : peg_check rrel_peg rrel_peg_config rrel_peg_oracles rrel_rules = true.
+Proof. exact live_peg_is_transcribed. Qed.
+Print Assumptions C12_live_peg_is_transcribed.
 
 (* non-vacuity and a computed instance:  +mp:^packages*.'it''s'~classes,(..a,parent(X))*.b  *)
 Definition sample : expr :=
@@ -71,8 +108,8 @@ Definition sample : expr :=
                                             (S1 (P1 (EParent [88])))))
                               (P1 (ENav [98] true None))));
      eflags := [109;112] |}%N.
-Example C12_sample_wf : wf_expr sample /\ lexable sample = true.
-Proof. split; [vm_compute; tauto | vm_compute; reflexivity]. Qed.
+Example C12_sample_wf : wf_expr sample /\ lexable ascii_only sample = true /\ no_trailing_bs sample = true.
+Proof. split; [vm_compute; tauto | split; vm_compute; reflexivity]. Qed.
 Print Assumptions C12_sample_wf.
 Example C12_sample_chars : parse_text ascii_only (print_src sample) = Some sample.
 Proof. vm_compute. reflexivity. Qed.
